@@ -31,6 +31,15 @@ CLAIMED = {
  "C20": ("exhaustive reflection sweep of every (exported type, argument-free method) pair on zero values (types discovered from /repo's sources at check time) + rapid-generated truncations/mutations for failed-parse results",
          "Domain A is complete each run (29 types today, every exported argument-free method of the pointer method set); domain B sweeps the value returned together with an error at every truncation point of ~4k generated encodings (~12M method calls). Verification methods must never report success on such values.",
          "recover() catches panics per call; reflection calls pointer-receiver and value-receiver methods through new(T).", "DESIGN.md 5/C20"),
+ "C07": ("rapid property-based testing with independent oracles (crypto/sha256, own bit-level base32/base64) and a metamorphic single-byte-difference relation; every offset of one identity per key-type pair enumerated",
+         "Hash/IdentHash/Base32Address/Base64/Equals of ~30k generated identity pairs per quick run compared with SHA-256 and own base encodings of the model bytes; every byte offset (keys, padding, certificate header/types/excess) of 10 identities flipped exhaustively to show it takes part in hash, address and equality.",
+         "crypto/sha256 trusted; base32/base64 oracle is the harness's bit-level codec.", "DESIGN.md 5/C07"),
+ "C09": ("exhaustive enumeration of signing {0..20} x crypto {0..10,255} over every API path yielding a Destination or RouterIdentity + rapid sampling of the rest of the 16-bit code space; oracle = policy table from the specification",
+         "All 252 known-code pairs x 2 seeds x 16 paths each run (soundness: no prohibited type escapes; completeness: permitted supported pairs succeed on every path), plus ~6k sampled pairs incl. boundary codes.",
+         "Policy table transcribed from common.md usage columns; struct literals with exported fields are not an API path. DecryptInnerData is covered by C16's crafted ciphertexts.", "DESIGN.md 5/C09"),
+ "C19": ("rapid differential testing of 23 parser twin pairs on shared inputs (valid / mutated / arbitrary) and of builder twins on generated arguments; native fuzzing of the twin table (thorough)",
+         "Same acceptance, identical serialisation and remainder for each twin pair on ~150k inputs per quick run (common domain per pair stated in the test), five key-certificate construction routes and the constructor twins on ~40k argument tuples.",
+         "Twins are compared only inside the domain both document (e.g. fixed-size readers on certificates declaring their sizes).", "DESIGN.md 5/C19"),
 }
 checks = []
 for pid in ids:
